@@ -220,11 +220,11 @@ def py_dump(v, out):
             out.append("i%d" % v[1])
         else:                                     # an integer text beyond int64 is read as a double (fix g)
             try:
-                out.append(("d", float(v[1])))
+                out.append(("d", float(v[1]), str(v[1])))
             except OverflowError:
                 out.append(("d", math.inf if v[1] > 0 else -math.inf))
     elif isinstance(v, tuple) and v[0] == 'd':
-        out.append(("d", float(v[1])))
+        out.append(("d", float(v[1]), v[1]))
     elif isinstance(v, tuple) and v[0] == 'o':
         out.append("{")
         for k, x in v[1]:
@@ -268,6 +268,9 @@ def same_tokens(lib, ref, ftol):
             x = bits_to_float(a[1:17])
             if ftol is not None and not (abs(x - b[1]) <= ftol(b[1])):
                 return "double differs: library %r reference %r" % (x, b[1])
+            if ftol is not None and "nearest" in OPEN and len(b) > 2 and one_rounding(b[2]) and struct.pack(">d", b[1]).hex() != a[1:17]:
+                return "not the nearest double: %s is read as %r (%s), the nearest double is %r (%s)" % (
+                    b[2][:40], x, a[1:17], b[1], struct.pack(">d", b[1]).hex())
         elif a != b:
             return "token differs: library %s reference %s" % (a[:60], b[:60])
     return None
@@ -476,9 +479,40 @@ EXACT_DOUBLES = [0.1, 0.3, 1.0 / 3, 2.0 ** -1074, 2.0 ** -1022, math.nextafter(2
                  2.0 ** -30, 1e-7, 5e-5, 123456.789, 1e22, 1e23, 2.0 ** 63, 2.0 ** 64, 4503599627370496.5, 2.0 ** -60, 1e-25, 1e-24, 1e-26]
 DBL_MAX_TEXT = format(Decimal(1.7976931348623157e308), "f")
 # range-exp (exponents beyond +-308 of representable numbers) is judged by default since the repair a215cb1 in /repo
-OPEN = set(os.environ.get("VERIF_JTEXT_OPEN", "range-exp").replace("all", "range-exp,range-mant,refused").replace("range,", "range-exp,").split(",")) - {""}
+# refused: 2.2250738585072011e-308 must be accepted (fixes/jtext-strtod-refused.diff); nearest: texts of the class `one_rounding` must be
+# read as the NEAREST double, bit for bit (fixes/jtext-strtod-nearest.diff) - both tolerated by default until the repairs are in /repo
+OPEN = set(os.environ.get("VERIF_JTEXT_OPEN", "range-exp").replace("all", "range-exp,range-mant,refused,nearest").replace("range,", "range-exp,").split(",")) - {""}
 if "range" in OPEN:
     OPEN.add("range-exp")
+
+
+def one_rounding(txt):
+    """number texts whose nearest double needs ONE rounding: at most 19 significant digits (so they fit into 64 bits) that make an integer
+    below 2^64, or a significand up to 2^53 times / divided by a power of ten up to 10^22 (both exact doubles).  This is the class
+    fixes/jtext-strtod-nearest.diff reads exactly; judged bit for bit with VERIF_JTEXT_OPEN=nearest, otherwise with tol_parse."""
+    m = NUM_RE.match(txt)
+    if not m:
+        return False
+    sg, ip, fp, ex = m.groups()
+    fp = (fp or "").rstrip("0")                   # trailing zeros of the fraction, and of an integer, carry no digit
+    if fp:
+        digs, k = (ip + fp).lstrip("0"), -len(fp)
+    else:
+        digs = ip.rstrip("0")
+        k = len(ip) - len(digs)
+    if len(digs) > 19 or (ex and len(ex) > 6):
+        return False
+    k += int(ex or "0")
+    mm = int(digs or "0")
+    if mm == 0 or (0 <= k <= 20 and mm * 10 ** k < 1 << 64):
+        return True
+    while k < 0 and mm % 10 == 0:
+        mm //= 10; k += 1
+    if k == 0:
+        return mm < 1 << 64
+    while mm > 1 << 53 and mm % 10 == 0:
+        mm //= 10; k += 1
+    return mm <= 1 << 53 and -22 <= k <= 22
 
 
 def num_digits(rng, n, pat, nonzero_first=False):
@@ -555,6 +589,10 @@ def number_edges(rng):
         out += [t, t + "e0", t + E() + "-5", t + E() + "+5"]
         if "." in t:
             out.append(t.rstrip("0") + "0" * 30)
+    out += ["9223372036854775808", "9223372036854775808.0", "9223372036854774784.0", "9223372036854777856", "18446744073709551615",
+            "18446744073709551615.0", "10000000000000000000", "0.1", "0.3", "0.7", "1.1", "4503599627370497.5", "9007199254740992e22",
+            "9007199254740991e-22", "123456789012345678e-2", "1e22", "1e-22", "8.5e-21", "1234567.12345678", "0.00000001",
+            "2.2250738585072011E-308", "22.250738585072011e-309"]
     out += ["9007199254740993", "9007199254740993.0", "9007199254740993e0", "2.2250738585072011e-308", "2.2250738585072012e-308",
             "2.2250738585072012e-309", "0.0", "0e0", "0.0e0", "0E-0", "0e+00", "1e00", "1.5E+000", "0.1e1", "0.5", "1e-7", "4.9e-323", "1e-323",
             "1.7976931348623157e308", "1.7976931348623157E+308", "17976931348623157e292", "0.00000000000000000000000000000012345",
@@ -644,7 +682,6 @@ PRINT_API = {
     "iwjsreg_close": "U:iwjsreg_sync", "iwjsreg_set_str": "U:iwjsreg_sync (IWJSREG_AUTOSYNC)", "iwjsreg_set_i64": "U:iwjsreg_sync (IWJSREG_AUTOSYNC)",
     "iwjsreg_inc_i64": "U:iwjsreg_sync (IWJSREG_AUTOSYNC)", "iwjsreg_set_bool": "U:iwjsreg_sync (IWJSREG_AUTOSYNC)",
     "iwjsreg_merge": "U:iwjsreg_sync (IWJSREG_AUTOSYNC)", "iwjsreg_replace": "U:iwjsreg_sync (IWJSREG_AUTOSYNC); used by the r.sync channel",
-    "jbl_merge_patch_jbl": "U:jbl_as_json + jbl_xstr_json_printer (b.xstr) on the patch, re-parsed at once (C15)",
     "jbl_as_buf": "X:the binary form, not text (C14)",
     "jbl_ptr_serialize": "X:writes a JSON pointer, not a document (C14)",
 }
@@ -1298,6 +1335,11 @@ def check(run):
                 y = bits_to_float(f[5][1:17]) if f[5][0] == "d" else float(int(f[5][1:]))
                 if not abs(y - x) <= 0.5e-8 + 1e-9 * abs(x):          # iwstrtod accumulates rounding errors: gross errors only
                     viol(l, o, "the library reads its own text %r back as %r instead of %r" % (bytes.fromhex(f[1]), y, x), "dbl-self")
+                elif "nearest" in OPEN and f[5][0] == "d":
+                    t = bytes.fromhex(f[1]).decode()[1:-1]
+                    if one_rounding(t) and struct.pack(">d", y) != struct.pack(">d", float(t)):
+                        viol(l, o, "the library reads its own text %s back as %r (%s), the nearest double is %r%s" % (
+                            t, y, struct.pack(">d", y).hex(), float(t), " - the printed value itself" if float(t) == x else ""), "dbl-nearest")
 
     # ---------------- ORACLE 4: utf8 encoder against Python's
     for i, m in enumerate(meta):
